@@ -208,3 +208,18 @@ pub fn replay(src: &str, targets: &str) -> (bool, String) {
     }
     (ok, msgs.join("\n"))
 }
+
+pub fn dispatch(cmd: &str, rest: &[String], tier: &str, seed: u64) -> Option<i32> {
+    match cmd {
+        "c01" => {
+            println!("{}", run(tier, seed).to_json().render());
+            Some(0)
+        }
+        "c01-case" => {
+            let (ok, msg) = replay(&crate::arg_or_file(&rest[0]), &rest[1]);
+            println!("{}", msg);
+            Some(if ok { 0 } else { 1 })
+        }
+        _ => None,
+    }
+}
